@@ -386,6 +386,10 @@ func init() {
 			return cur
 		case *Term:
 			if isSliceSort(a.Sort) {
+				// NewCoins() of an empty (nil) argument list is the empty Coins value
+				if a.kind == tCon && len(a.Args) > 0 && a.Args[0].IsLit() && a.Args[0].Lit.Sign() == 0 {
+					return cur
+				}
 				r := UF("coins_of_slice", SCoins, a)
 				return r
 			}
